@@ -16,7 +16,7 @@ impl DateTime {
     pub(crate) fn from_node(node: &Node) -> Result<Option<Self>> {
         let gps_time_node = node
             .children()
-            .find(|n| n.has_tag_name("dateTimeValue") && n.attribute("type") == Some("Float"))
+            .find(|n| xml::is_tag(n, "dateTimeValue") && n.attribute("type") == Some("Float"))
             .invalid_err("Unable to find XML tag 'dateTimeValue' with type 'Float'")?;
         let gps_time_text = xml::text(&gps_time_node);
         let gps_time = if let Some(text) = gps_time_text {
@@ -27,7 +27,7 @@ impl DateTime {
         };
 
         let atomic_reference_node = node.children().find(|n| {
-            n.has_tag_name("isAtomicClockReferenced") && n.attribute("type") == Some("Integer")
+            xml::is_tag(n, "isAtomicClockReferenced") && n.attribute("type") == Some("Integer")
         });
         let atomic_reference = if let Some(node) = atomic_reference_node {
             xml::text(&node).is_some_and(|text| text.trim() == "1")
